@@ -607,7 +607,7 @@ Proof.
 Qed.
 
 Lemma new_allotment_exact : forall ps a, new_allotment ps = inr a ->
-  (count_remaining ps = 1%nat \/ req (sum_specific ps) ratio_one) -> ratio_is_one (ratio_sum a).
+  ((1 <= count_remaining ps)%nat \/ req (sum_specific ps) ratio_one) -> ratio_is_one (ratio_sum a).
 Proof.
   intros ps a H Hex. unfold new_allotment in H.
   destruct (Nat.ltb 1 (count_remaining ps)) eqn:Hc; [discriminate|]. apply Nat.ltb_ge in Hc.
@@ -615,7 +615,7 @@ Proof.
   inversion H; subst a; clear H.
   apply ratio_is_one_req, req_Qeq. rewrite new_allotment_sum, Qof_sub, Qof_one.
   destruct Hex as [H1|H1].
-  - rewrite H1. cbn. ring.
+  - assert (E : count_remaining ps = 1%nat) by lia. rewrite E. cbn. ring.
   - assert (H2 : Qeq (Qof (sum_specific ps)) 1%Q) by exact H1. clear H1. rename H2 into H1.
     assert (count_remaining ps = 0%nat \/ count_remaining ps = 1%nat) as [E|E] by lia; rewrite E; cbn; rewrite H1; ring.
 Qed.
@@ -637,7 +637,7 @@ Theorem new_allotment_spec : forall ps a, new_allotment ps = inr a ->
   Forall portion_nonneg ps ->
   length a = length ps /\
   Forall (fun q : ratio => 0 <= fst q) a /\
-  ((count_remaining ps = 1%nat \/ req (sum_specific ps) ratio_one) -> ratio_is_one (ratio_sum a)).
+  (((1 <= count_remaining ps)%nat \/ req (sum_specific ps) ratio_one) -> ratio_is_one (ratio_sum a)).
 Proof.
   intros ps a H Hnn. split; [eapply new_allotment_length; eassumption|].
   split; [eapply new_allotment_nonneg; eassumption|]. intro Hex. eapply new_allotment_exact; eassumption.
